@@ -586,3 +586,35 @@ Proof.
   clear -Hts. induction ts as [|x ts IH]; [reflexivity|]. cbn [forallb] in *. apply andb_true_iff in Hts as [H1 H2].
   rewrite H1. exact (IH H2).
 Qed.
+
+(* ---------- C17_whole on the engine-TTL path (Badger as modelled): the creator writes the index record and the version
+   record of a creation with the SAME ttl in each of its batches (put-if-absent, re-create after Get, CAS over a
+   tombstoned index), so they expire together ---------- *)
+
+Lemma badger_put_gone t ttl x s now :
+  ttl <> 0 -> t + ttl <= now ->
+  ~ In x (map t_rec (ts_store (advance EBadger now (put_ent EBadger t ttl x s)))).
+Proof.
+  intros Hz Hle Hin. apply in_map_iff in Hin as (y & Hy & Hin).
+  cbn [advance put_ent ts_store] in Hin. apply filter_In in Hin as [Hin Hf].
+  apply in_app_iff in Hin as [Hin|[<-|[]]].
+  - apply filter_In in Hin as [_ Hs]. rewrite Hy, same_slot_refl in Hs. discriminate.
+  - cbn [t_exp] in Hf. apply N.eqb_neq in Hz. rewrite Hz in Hf.
+    apply orb_true_iff in Hf as [Hf|Hf]; [apply N.eqb_eq in Hf; lia|apply N.ltb_lt in Hf; lia].
+Qed.
+
+Theorem badger_create_whole t ttl k rev v s now :
+  ttl <> 0 -> t + ttl <= now ->
+  let s' := put_ent EBadger t ttl (RVer k rev v) (put_ent EBadger t ttl (RIdx k rev false) s) in
+  ~ In (RIdx k rev false) (map t_rec (ts_store (advance EBadger now s'))) /\
+  ~ In (RVer k rev v) (map t_rec (ts_store (advance EBadger now s'))).
+Proof.
+  intros Hz Hle. cbv zeta. split; [|apply badger_put_gone; assumption].
+  intros Hin. apply in_map_iff in Hin as (y & Hy & Hin).
+  cbn [advance put_ent ts_store] in Hin. apply filter_In in Hin as [Hin Hf].
+  apply in_app_iff in Hin as [Hin|[<-|[]]]; [|discriminate].
+  apply filter_In in Hin as [Hin _]. apply in_app_iff in Hin as [Hin|[<-|[]]].
+  - apply filter_In in Hin as [_ Hs]. rewrite Hy, same_slot_refl in Hs. discriminate.
+  - cbn [t_exp] in Hf. apply N.eqb_neq in Hz. rewrite Hz in Hf.
+    apply orb_true_iff in Hf as [Hf|Hf]; [apply N.eqb_eq in Hf; lia|apply N.ltb_lt in Hf; lia].
+Qed.
